@@ -16,6 +16,7 @@ DAYS_QUICK = [
     (2024, 12, 31),
     (2024, 2, 29),
     (2025, 7, 16),
+    (2024, 10, 5),   # Australia/Adelaide and Lord_Howe DST start: the offset changes at hh:30 UTC, inside a UTC hour
 ]
 DAYS_THOROUGH = DAYS_QUICK + [
     (2024, 3, 10), (2024, 10, 27), (2024, 10, 6), (2025, 1, 1), (2023, 6, 11), (2026, 3, 29), (2027, 11, 7), (2028, 2, 29),
@@ -24,7 +25,7 @@ DAYS_THOROUGH = DAYS_QUICK + [
 ]
 TD_OFFSETS = [dt.timedelta(hours=26), -dt.timedelta(hours=26), dt.timedelta(hours=5, minutes=30), -dt.timedelta(hours=5, minutes=30),
               dt.timedelta(hours=3), -dt.timedelta(minutes=45)]
-ZONES = ["UTC", "Europe/Berlin", "America/New_York", "Asia/Kolkata", "Asia/Kathmandu", "Australia/Lord_Howe", "Pacific/Chatham", "America/St_Johns"]
+ZONES = ["UTC", "Europe/Berlin", "America/New_York", "Asia/Kolkata", "Asia/Kathmandu", "Australia/Lord_Howe", "Pacific/Chatham", "America/St_Johns", "Australia/Adelaide"]
 GRAMMAR = [
     "*/15 * * * *", "0-29/2 1-5 * * *", "5,10,50-59 */3 * * 1-5", "0 0 1,15 * 0", "*/7 0-23/5 */2 1-12/3 *",
     "1-3,7,20-40/10 2,14 10-20 * 6", "* * 29 2 *", "59 23 31 12 *", "0 12 * * 0,6", "30 2 * 3 0", "*/5 22-23 * * 5",
@@ -44,6 +45,7 @@ META = {
         "(lists, ranges, steps) are evaluated and compared with the reference matcher. Expected local time comes from "
         "zoneinfo / plain timedelta arithmetic (not pytz). Instants where zoneinfo and pytz disagree on the offset are "
         "excluded and counted. distinct_nontrivial = distinct (expression shape, offset kind, due?) classes."
+        " Zones whose DST switch falls inside a UTC hour (Australia/Adelaide, Lord_Howe in October, America/St_Johns) on their transition days."
     ),
     "assumptions": [
         "the wall clock is the scripted one (run.datetime patched harness-side); shards run with the process' local zone (TZ) set to UTC, Asia/Tokyo or America/New_York and with naive now() at UTC or UTC+5:30: none of it may matter",
